@@ -266,3 +266,12 @@ func (p *c19) Floors(tier string) map[string]int64 {
 
 func (p *c19) MaxWorkers() int { return 0 }
 func (p *c19) Race() bool      { return false }
+
+// RaceSample: an extra -race worker re-runs a strided sample of the histories (the
+// tokeniser is stopped from the parser's goroutine while it may still be running).
+func (p *c19) RaceSample(tier string) int {
+	if tier == "thorough" {
+		return 499
+	}
+	return 41
+}
